@@ -37,6 +37,7 @@ fn main() {
     // child modes of the C16 check (fresh processes, cold tables)
     match what.as_str() {
         "env-child" => { props::envchild::child(args[2].parse().unwrap_or(1)); return; }
+        "c16-engines" => { props::c16::child_engines(args[2].parse().unwrap_or(1), args[3].parse().unwrap_or(16)); return; }
         "c16-pipe" => { props::c16::child_pipe(args[2].parse().unwrap_or(1)); return; }
         "c16-deps" => { props::c16::child_deps(&args[2]); return; }
         "c16-churn" => { props::c16::child_churn(args[2].parse().unwrap_or(1), args[3].parse().unwrap_or(24)); return; }
